@@ -27,7 +27,10 @@ RULE = (
     "str(UUID(int=n)) for n over all 2^128 (lower/upper case, urn: and braces excluded) must be "
     "accepted by format uuid; RFC 3339 timestamps generated from the ABNF of section 5.6 with the "
     "restrictions of 5.7 (classes: ordinary years 0001-9999, leap second 23:59:60 on Jun 30 / Dec 31 "
-    "UTC-equivalent, year 0000) must be accepted by format date-time. non-trivial = history with a "
+    "UTC-equivalent, year 0000) must be accepted by format date-time. sub-check C: short histories (registrations "
+    "of built-in and other names before and after the first check, then checks on strings whose status the statement "
+    "fixes) each run in a NEW interpreter, so that the first format-related action of a process is part of the "
+    "generated history; same model. non-trivial = history with a "
     "re-registration or a check that hits a registered name with a str; or any built-in case; "
     "distinct = canon(history) / the string"
 )
@@ -35,7 +38,7 @@ ASSUMPTIONS = [
     "the process-wide registry is saved at the start of each case and restored at teardown",
     "RFC 3339 generator follows section 5.6 (date-fullyear 4DIGIT, T/t, Z/z, 1+ fraction digits, numeric offset +-00:00..23:59)",
 ]
-BUDGET = {"quick": (160, 20, 1500), "thorough": (1200, 40, 12000)}  # machines, steps, builtin examples
+BUDGET = {"quick": (160, 20, 1500, 25), "thorough": (1200, 40, 12000, 300)}  # machines, steps, builtin examples, fresh-process histories
 
 NAMES = ["uuid", "date-time", "my_format", "email", "x", "", "ipv4", "日付", "a b", "UUID", "date_time"]
 PREDS = [("always",), ("never",), ("len_mod", 2, 0), ("len_mod", 3, 1), ("contains", "a"), ("contains", "-")]
@@ -186,6 +189,104 @@ class Machine(RuleBasedStateMachine):
                              n=max(1, ops.count("check")), sample=h.case())
 
 
+# ------------------------------------------------- histories in a new interpreter
+# what the statement fixes about the BUILT-IN checkers: canonical UUIDs / RFC 3339 timestamps are accepted (True); about
+# any other string it says nothing (None = either verdict; the built-in date-time checker is deliberately lenient).
+# Once a name has been re-registered the generated predicate decides every string.
+TRUTH = {
+    "uuid": {"12345678-1234-5678-1234-567812345678": True, "00000000-0000-0000-0000-000000000000": True,
+             "not-a-uuid": None, "2019-11-17": None, "": None, "abc": None},
+    "date-time": {"1990-12-31T23:59:59Z": True, "2019-11-17T10:00:00+01:00": True, "2019-11-17": None,
+                  "yesterday": None, "": None, "abc": None},
+}
+FRESH_KINDS = ["String", "Element", "parsed-untyped", "parsed-string"]
+
+
+@st.composite
+def fresh_histories(draw):
+    """What a program does at import time and after: (re-)register some names - the built-in ones above all - BEFORE
+    or after the first format check of the process, then check."""
+    ops = []
+    names = ["uuid", "date-time", "uuid", "date-time", "my_format", "email"]
+    for _ in range(draw(st.integers(0, 2))):
+        ops.append({"op": "register", "name": draw(st.sampled_from(names)), "pred": list(draw(st.sampled_from(PREDS)))})
+    for _ in range(draw(st.integers(2, 6))):
+        if draw(st.integers(0, 4)) == 0:
+            ops.append({"op": "register", "name": draw(st.sampled_from(names)),
+                        "pred": list(draw(st.sampled_from(PREDS)))})
+            continue
+        name = draw(st.sampled_from(names))
+        pool = sorted(TRUTH.get(name, TRUTH["uuid"]))
+        value = draw(st.one_of(st.sampled_from(pool), st.sampled_from(pool), st.sampled_from([5, None, ["a"]])))
+        ops.append({"op": "check", "kind": draw(st.sampled_from(FRESH_KINDS)), "name": name, "value": value})
+    return {"fresh_history": ops}
+
+
+def run_fresh(history):
+    import json
+    import os
+    import subprocess
+    import sys
+    from vlib import repo
+
+    home = os.path.dirname(os.path.dirname(os.path.abspath(__file__)))
+    env = dict(os.environ, PYTHONPATH=os.pathsep.join([os.path.join(home, ".deps"), home]), PYTHONHASHSEED="0",
+               VERIF_REPO_DIR=repo.REPO_DIR)
+    p = subprocess.run([sys.executable, "-W", "ignore", "-m", "vlib.c16_fresh_driver"],
+                       input=json.dumps({"history": history}).encode(), stdout=subprocess.PIPE,
+                       stderr=subprocess.PIPE, env=env, timeout=300, cwd=home)
+    if p.returncode != 0:
+        raise runner.HarnessError("c16_fresh_driver failed: " + p.stderr.decode()[-600:])
+    return json.loads(p.stdout.decode())
+
+
+def fresh_predicate(case, stats):
+    history = case["fresh_history"]
+    results = run_fresh(history)
+    model = {"uuid": ("builtin", "uuid"), "date-time": ("builtin", "date-time")}
+    fails = []
+    rereg = hit = False
+    first_check_seen = False
+    early_builtin_rereg = False
+    for op, res in zip(history, results):
+        if op["op"] == "register":
+            if op["name"] in model:
+                rereg = True
+                if not first_check_seen and op["name"] in TRUTH:
+                    early_builtin_rereg = True
+            model[op["name"]] = tuple(op["pred"])
+            continue
+        first_check_seen = True
+        got, warned, base = res
+        name, value = op["name"], op["value"]
+        is_str = isinstance(value, str)
+        registered = name in model
+        fmt_ok = True
+        if is_str and registered:
+            hit = True
+            spec = model[name]
+            fmt_ok = TRUTH[name][value] if spec[0] == "builtin" else bool(make_pred(spec)(value))
+        if fmt_ok is None and base == "ok":
+            continue  # built-in checker on a string the statement says nothing about
+        expected = "reject" if (base != "ok" or not fmt_ok) else "ok"
+        if got != expected:
+            kindname = ("checker-false-but-accepted" if got == "ok" else
+                        "non-string-rejected-on-account-of-format" if not is_str else
+                        "unregistered-format-rejects" if not registered else
+                        "checker-true-but-rejected" if got == "reject" else got)
+            fails.append({"sub": "fresh-process", "kind": kindname, "name": name, "value": value,
+                          "element": op["kind"], "registered": registered, "current_checker": list(model.get(name, []))})
+        want_warning = is_str and not registered and base == "ok"
+        if bool(warned) != want_warning:
+            fails.append({"sub": "fresh-process", "kind": "warning-missing" if want_warning else "unexpected-warning",
+                          "name": name, "value": value, "element": op["kind"]})
+    stats.case("fresh:" + canon(history), rereg or hit,
+               ["fresh-process"] + ["re-registration"] * rereg + ["builtin-re-registered-before-first-check"] * early_builtin_rereg,
+               n=max(1, sum(1 for o in history if o["op"] == "check")), sample=case)
+    stats.extra["subprocesses"] = stats.extra.get("subprocesses", 0) + 1
+    return fails
+
+
 # ------------------------------------------------------------- built-ins
 def days_in_month(y, m):
     if m == 2:
@@ -248,6 +349,8 @@ def builtin_predicate(case, stats):
 
 
 def replay_predicate(case, stats):
+    if "fresh_history" in case:
+        return fresh_predicate(case, stats)
     if "history" in case:
         h = Harness()
         fails = []
@@ -262,8 +365,11 @@ def replay_predicate(case, stats):
 
 
 def run_shard(ctx, stats):
-    machines, steps, n_builtin = BUDGET[ctx.tier]
+    machines, steps, n_builtin, n_fresh = BUDGET[ctx.tier]
     failure = runner.machine_run(ctx, stats, Machine, machines, steps)
     if failure:
         return failure
-    return runner.hyp_run(ctx, stats, st.one_of(uuids, rfc3339(), rfc3339()), builtin_predicate, n_builtin, salt=7)
+    failure = runner.hyp_run(ctx, stats, st.one_of(uuids, rfc3339(), rfc3339()), builtin_predicate, n_builtin, salt=7)
+    if failure:
+        return failure
+    return runner.hyp_run(ctx, stats, fresh_histories(), fresh_predicate, n_fresh, salt=11)
